@@ -246,17 +246,15 @@ func registerCrypto() {
 		out := aead.Seal(dst, nonce, unhx(a["data"]), unhx(a["aad"]))
 		return clsOK, strconv.Itoa(len(out))
 	})
-	register("aescbcaead-open", "aescbcaead AEAD.Open(dst, nonce of NonceSize, ciphertext||tag, aad)", func(a map[string]string) (string, string) {
+	register("aescbcaead-open", "aescbcaead AEAD.Open(dst, nonce of any length, ciphertext||tag, aad)", func(a map[string]string) (string, string) {
 		v, _ := strconv.Atoi(a["variant"])
 		aead, err := aeadCtors[v%4](unhx(a["key"]))
 		if err != nil {
 			return clsSkip, ""
 		}
-		nonce := unhx(a["nonce"])
-		if len(nonce) != aead.NonceSize() {
-			return clsSkip, "documented cipher.AEAD contract: nonce must be NonceSize bytes"
-		}
-		_, err = aead.Open(nil, nonce, unhx(a["data"]), unhx(a["aad"]))
+		// the property lists "nonces of arbitrary length" as inputs and excludes only Seal with a wrong-size
+		// nonce: Open must answer a nonce of any length with an error
+		_, err = aead.Open(nil, unhx(a["nonce"]), unhx(a["data"]), unhx(a["aad"]))
 		return errClass(err)
 	})
 }
@@ -528,6 +526,19 @@ func genCrypto(r *runner) {
 			c := mk("aescbcaead-open", "variant", strconv.Itoa(v), "key", hx(key), "nonce", hx(nonce), "data", hx(forged), "aad", hx(aad))
 			c.Family = "verified-tag"
 			r.do(c)
+			// nonces of every length 0..33, with a random and with a verifying tag over a block-aligned body
+			for nl := 0; nl <= 33; nl++ {
+				if nl == 16 || (n%8 != 0) {
+					continue
+				}
+				nn := r.rnd.Bytes(nl)
+				body16 := r.rnd.Bytes(n / 16 * 16)
+				f2 := append(append([]byte{}, body16...), forgeTag(v, key, nn, body16, aad)...)
+				cw := mk("aescbcaead-open", "variant", strconv.Itoa(v), "key", hx(key), "nonce", hx(nn), "data", hx(f2), "aad", hx(aad))
+				cw.Family = "verified-tag-wrong-nonce"
+				r.do(cw)
+				r.do(mk("aescbcaead-open", "variant", strconv.Itoa(v), "key", hx(key), "nonce", hx(nn), "data", hx(r.rnd.Bytes(n)), "aad", hx(aad)))
+			}
 			// the same through the package-level API
 			alg := []string{"A128CBC-HS256", "A192CBC-HS384", "", "A256CBC-HS512"}[v]
 			if alg != "" {
